@@ -113,7 +113,10 @@ CONTAINERS = {
 }
 
 SCALARS = ["uint64_t", "int32_t", "uintptr_t", "uint8_t", "bool"]
-RICH_ARGS = ["struct ArgPair", "struct CSliceRef_u8", "const uint8_t *", "void *", "struct Callback_c_void__{cb}"]
+# (the last one: the out slot of an integer-result entry, `&mut MaybeUninit<CTup2<CSliceRef<u8>, usize>>`:
+# a pointer to the payload in C, a pointer to `MaybeUninit<...>` in C++, which the tool strips)
+OUT_SLOT = "struct CTup2_CSliceRef_u8__usize *"
+RICH_ARGS = ["struct ArgPair", "struct CSliceRef_u8", "const uint8_t *", "void *", "struct Callback_c_void__{cb}", OUT_SLOT]
 CB_PAYLOAD_CTYPE = {"ArgPair": "struct ArgPair", "u64": "uint64_t"}
 
 
@@ -196,11 +199,13 @@ def gen_model(seed):
         conts = [c for c in ("Box", "Mut", "Ref") if r.chance(1, 2)] or ["Box"]
         traits.append({"name": name, "funcs": funcs, "conts": conts, "rettmp_real": ti >= 1 and r.chance(1, 3)})
     groups = []
+    # (a group's own name may end in the suffix the tool appends to find group containers)
+    gnames = ["DepotContainer", "Kit"] if seed % 5 == 2 else ["Bundle", "Kit"]
     if r.chance(1, 2):
         for gi in range(1 + r.below(2)):
             members = [t["name"] for t in traits if r.chance(2, 3)] or [traits[0]["name"]]
             g = {
-                "name": ["Bundle", "Kit"][gi],
+                "name": gnames[gi],
                 "traits": members,
                 "conts": [c for c in ("Box", "Mut") if r.chance(1, 2)] or ["Box"],
                 "ctxs": [contexts[0]] + ([contexts[1]] if len(contexts) > 1 and r.chance(1, 3) else []),
@@ -318,6 +323,8 @@ def render(model):
         w("/**\n * A user context type.\n */\ntypedef struct %s {\n    uint64_t tag;\n    void *handle;\n} %s;\n" % (c, c))
     w("/**\n * A two-field argument structure.\n */\ntypedef struct ArgPair {\n    uint32_t a;\n    uint64_t b;\n} ArgPair;\n")
     w("/**\n * Wrapper around const slices.\n */\ntypedef struct CSliceRef_u8 {\n    const uint8_t *data;\n    uintptr_t len;\n} CSliceRef_u8;\n")
+    if any(a[0] == OUT_SLOT for t in model["traits"] for f in t["funcs"] for a in f[2]):
+        w("/**\n * FFI-safe 2 element tuple.\n */\ntypedef struct CTup2_CSliceRef_u8__usize {\n    struct CSliceRef_u8 _0;\n    uintptr_t _1;\n} CTup2_CSliceRef_u8__usize;\n")
     cb = model.get("callback_payload", "ArgPair")
     w("/**\n * FFI-safe callback.\n */\ntypedef struct Callback_c_void__%s {\n    void *context;\n    bool (*func)(void*, %s);\n} Callback_c_void__%s;\n" % (cb, CB_PAYLOAD_CTYPE[cb], cb))
     if model["foreign_names"]:
@@ -551,7 +558,16 @@ def cpp_type(ty, model):
         return "CSliceRef<uint8_t>"
     if ty.startswith("struct Callback_c_void__"):
         return "OpaqueCallback<%s>" % ("ArgPair" if cb == "ArgPair" else "uint64_t")
+    if ty == OUT_SLOT:
+        return "MaybeUninit<CTup2<CSliceRef<uint8_t>, uintptr_t>> *"
     return ty
+
+
+def cpp_type_processed(ty, model):
+    """The same type as a user of the processed header sees it (the tool strips MaybeUninit)."""
+    if ty == OUT_SLOT:
+        return "CTup2<CSliceRef<uint8_t>, uintptr_t> *"
+    return cpp_type(ty, model)
 
 
 def cpp_model(model):
@@ -602,9 +618,12 @@ def render_cpp(model):
     w("/**\n * FFI-Safe Arc\n */\ntemplate<typename T>\nstruct CArc {\n    const T *instance;\n    const T *(*clone_fn)(const T*);\n    void (*drop_fn)(const T*);\n};\n")
     w("/**\n * FFI-safe box\n */\ntemplate<typename T>\nstruct CBox {\n    T *instance;\n    void (*drop_fn)(T*);\n};\n")
     w("/**\n * A two-field argument structure.\n */\nstruct ArgPair {\n    uint32_t a;\n    uint64_t b;\n};\n")
-    uses_ref = any(a[0] == "struct CSliceRef_u8" for t in m["traits"] for f in t["funcs"] for a in f[2])
+    uses_slot = any(a[0] == OUT_SLOT for t in m["traits"] for f in t["funcs"] for a in f[2])
+    uses_ref = uses_slot or any(a[0] == "struct CSliceRef_u8" for t in m["traits"] for f in t["funcs"] for a in f[2])
     if uses_ref or m["seed"] % 3 != 0:
         w("/**\n * Wrapper around const slices.\n */\ntemplate<typename T>\nstruct CSliceRef {\n    const T *data;\n    uintptr_t len;\n};\n")
+    if uses_slot:
+        w("/**\n * FFI-safe 2 element tuple.\n */\ntemplate<typename A, typename B>\nstruct CTup2 {\n    A _0;\n    B _1;\n};\n")
     # a crate may expose mutable slices only
     w("/**\n * Wrapper around mutable slices.\n */\ntemplate<typename T>\nstruct CSliceMut {\n    T *data;\n    uintptr_t len;\n};\n")
     w("/**\n * FFI-safe callback.\n */\ntemplate<typename T, typename F>\nstruct Callback {\n    T *context;\n    bool (*func)(T*, F);\n};\n")
